@@ -684,6 +684,18 @@ def gen_callback(cx, cbt, ct, abi, pname):
     v = cx.fresh("cb")
     args = ["_data: %s" % mtype(cm, fn.params[0], cx.names)]
     logs = ["let got = vs::cb_seen();"]
+
+    def same_scalar(ir_p, c_p, what):
+        # Rust calls run_callback through a function pointer transmuted to its own parameter types; nothing converts,
+        # so the declared C scalar must be exactly the Rust primitive (kind, width, signedness)
+        want = ir_prim_ctype(ir_p)
+        if (c_p.kind, c_p.width) != (want.kind, want.width) or (want.kind == "int" and bool(c_p.signed) != bool(want.signed) and not c_p.is_plain_char):
+            raise Mismatch("%s: %s is %s in Rust but the header's run_callback declares %s" % (abi, what, ir_p.name, c_p.c_spelling()))
+    for i, (pt, cpt) in enumerate(zip(cbt.params, fn.params[1:])):
+        if isinstance(pt, Prim):
+            same_scalar(pt, cpt, "callback parameter %d" % i)
+    if isinstance(cbt.ret, Prim):
+        same_scalar(cbt.ret, fn.ret, "callback return type")
     for i, (pt, cpt) in enumerate(zip(cbt.params, fn.params[1:])):
         args.append("a%d: %s" % (i, mtype(cm, cpt, cx.names)))
         # what the foreign callback receives, read through the header's parameter type
